@@ -815,8 +815,14 @@ def run(ctx):
                             'body': body_preview(req)[:200], 'status': o.get('status'), 'created': o.get('created'), 'changed': o.get('changed')})
 
     seen = set()
+    nseen = nskipped = 0
     for st in tlaval.read_dump(r.dump):
         req, dec = st['req'], st['dec']
+        nseen += 1
+        # thorough tier: of the requests that deviate in 3 fields every second one is replayed (which half depends on the seed)
+        if K >= 3 and (nseen + ctx.seed) % 2 and ndev(req, primary) >= 3:
+            nskipped += 1
+            continue
         by_dec[dec] += 1
         ndistinct += 1
         seen.add(devclass(req))
@@ -828,6 +834,7 @@ def run(ctx):
         flush(chunk)
     ctx.log('vectors: %d requests, %d replays (empty / pre-populated bucket), %d matched; decisions %s' % (ndistinct, nvec, nmatch, by_dec))
     ctx.cov['vectors_replayed'] = nvec
+    ctx.cov['vectors_enumerated_not_replayed'] = nskipped
     ctx.cov['vector_decisions'] = by_dec
     ctx.cov['request_classes'] = len(seen)
     ctx.cov['evaluations'] += nvec
